@@ -82,8 +82,7 @@ def gen_history(r, cid, nops, modelled_only):
         elif t < 36: ops.append('a%d:%d' % (r.below(size[0] + 2), k)); size[0] += 1
         elif t < 62: ops.append('r%d' % r.below(max(size[0], 1) + 3))
         elif t < 68:
-            if not multi or not modelled_only: ops.append('k%d' % k)
-            else: ops.append('r%d' % r.below(max(size[0], 1)))
+            ops.append('k%d' % k)
         elif t < 74: ops.append('x%d' % r.below(max(size[0], 1)) + ('' if r.chance(1, 2) else ':%d' % k))
         elif t < 79: ops.append('e%d:%d' % (r.below(max(size[0], 1)), k))
         elif t < 82: ops.append(r.choice(['y', 'Y', 'm']))
@@ -92,6 +91,9 @@ def gen_history(r, cid, nops, modelled_only):
         elif t < 92: ops.append(probe(k))
         elif t < 96: ops.append('s')
         else: ops.append('t')
+        if r.chance(1, 12):
+            lo = r.below(size[0] + 2); ops.append('g%d:%d' % (lo, lo + r.choice([0, 1, 2, 3, r.below(size[0] + 2)])))
+            if r.chance(1, 2): ops.append('s')
         if not modelled_only:
             u = r.below(40)
             if u < 3: ops.append('g%d:%d' % (r.below(size[0] + 2), r.below(size[0] + 2)))
